@@ -135,7 +135,58 @@ def conformance():
     return 1 if bad else 0
 
 
+def shapes():
+    """Vacuity guard for the scenario geometry: every family whose name says grow/shrink must really start from the table
+    size it assumes and really resize during the run (one default-schedule run with the step log on)."""
+    import json, os, random
+    import lib, scen
+    sc = lib.Scratch()
+    sm = json.load(open(os.path.join(sc.dir, "sitemap.json")))
+    publish = {"%s:%d" % (x["file"], x["line"]) for x in sm["sites"] if x["func"] == "resize" and x["op"] == "StorePointer"}
+    bad = 0
+    strat = {"kind": "pct", "depth": 2, "runs": 12, "seed": 1}
+    todo = []
+    for (kind, kt, vt) in (("Map", "", ""), ("MapOf", "string", "any"), ("MapOf", "int", "int")):
+        fams = scen.map_families(kind, kt, vt, strat) + scen.termination_families(kind, kt, vt, strat) + scen.solo_families(kind, kt, vt)
+        fams += scen.random_map_scenarios(kind, kt, vt, random.Random(1), 40, 1, 1)
+        todo.append((kind, fams))
+    for (kind, kt, vt) in (("Cache", "", ""), ("CacheOf", "string", "any")):
+        todo.append((kind, scen.cache_families(kind, kt, vt, strat) + scen.solo_families(kind, kt, vt)))
+    for kind, fams in todo:
+        sel = [f for f in fams if "shrink" in f["name"] or "grow" in f["name"]]
+        for f in sel:
+            f["steplog"] = True
+            if f["strategy"].get("kind") == "solo":
+                f["strategy"] = dict(strat)
+        d = lib.mktemp("verif-shapes-")
+        pin, out = os.path.join(d, "in.json"), os.path.join(d, "out.ndjson")
+        json.dump(sel, open(pin, "w"))
+        sc.run("conc", inp=pin, out=out, stats=os.path.join(d, "st.json"), timeout=1800)
+        cur, lens, res = None, {}, {}
+        for l in open(out):
+            e = json.loads(l)
+            if e.get("ev") == "reset":
+                cur = e["note"]
+                res.setdefault(cur, 0)
+            elif e.get("ev") == "init" and cur not in lens:
+                lens[cur] = json.loads(e["note"])["Len"]
+            elif e.get("ev") == "step" and (e.get("fn") or e.get("note")) in publish:
+                res[cur] = res.get(cur, 0) + 1   # a new table was published
+        for f in sel:
+            n = f["name"]
+            want = 64 if "shrink" in n else 32
+            rnd = n.startswith("RND")   # random programs need not contain the triggering call
+            if lens.get(n) != want or (res.get(n, 0) == 0 and not rnd):
+                print("selftest (d): %s starts from %s buckets (want %d), %d tables published" % (n, lens.get(n), want, res.get(n, 0)))
+                bad += 1
+        print("selftest (d): %s: %d grow/shrink scenarios checked" % (kind, len(sel)))
+    print("selftest (d): vacuous geometries:", bad)
+    return 1 if bad else 0
+
+
 def main(argv):
+    if argv and argv[0] == "shapes":
+        return shapes()
     if argv and argv[0] == "conf":
         return conformance()
     if argv and argv[0] == "matrix":
